@@ -25,6 +25,7 @@ func init() {
 func runC18(c *Check) {
 	LostReceiverStores(c, "C18.CFG", "components/requestreply", "components/cqrs")
 	DefaultsApplied(c, "C18.CFG", "components/requestreply", "components/cqrs")
+	OptionalHooksGuarded(c, "C18.CFG", "components/requestreply")
 	P := "C18"
 	// the request-reply handler finds the command message through the context the command processor sets on it
 	for _, fn := range c.P.SrcFuncs("components/cqrs") {
@@ -98,6 +99,47 @@ func runC18(c *Check) {
 		}
 		c.Report(true, P+".O2", "SETTLE-CALLS-SCANNED", processed, processed.Pos(), "package requestreply", fmt.Sprintf("%d Ack/Nack calls outside the reply listener", ns))
 	}
+	// a step of the set-up that fails (subscriber constructor, topic generator, Subscribe) is reported: the caller never gets
+	// "no error" together with a channel nobody will ever write to or close
+	for _, cl := range CallsIn(listen) {
+		call, isCall := cl.(*ssa.Call)
+		if !isCall || call.Parent() != listen {
+			continue
+		}
+		sig := call.Common().Signature()
+		nr := sig.Results().Len()
+		if nr == 0 || !IsErrorType(sig.Results().At(nr-1).Type()) {
+			continue
+		}
+		_, fail := NilEdges(listen, func(v ssa.Value) bool {
+			if nr == 1 {
+				return v == ssa.Value(call)
+			}
+			e, ok := v.(*ssa.Extract)
+			return ok && e.Tuple == ssa.Value(call) && e.Index == nr-1
+		})
+		for _, e := range fail {
+			re := ReachEdge(e, nil)
+			okF := true
+			for _, ret := range Returns(listen) {
+				if re[ret] && !KnownNonNilAt(listen, ret, ret.Results[1]) {
+					for _, v := range RetOrigins(ret, 1) {
+						if !ProvablyNonNil(v, func(x ssa.Value) bool { return KnownNonNilAt(listen, ret, x) }) {
+							okF = false
+						}
+					}
+				}
+			}
+			c.Report(okF, P+".O4", "LISTEN-SETUP-FAILURE-REPORTED", listen, call.Pos(), "set-up step", "when a step of the listener's set-up fails ListenForNotifications returns a non-nil error (never a channel that stays silent and open)")
+		}
+	}
+	// the reply channel has room for one reply: a reply that arrived in time waits there for a caller that reads late
+	AllInstrs(listen, func(in ssa.Instruction) {
+		if mc, ok := in.(*ssa.MakeChan); ok && mc.Parent() == listen {
+			n, isC := IntConst(mc.Size)
+			c.Report(isC && n >= 1, P+".O4", "REPLY-CHANNEL-BUFFERED", listen, mc.Pos(), "make(chan Reply, n)", "the reply channel is buffered (the listener's sends never depend on the caller being in its receive at that moment)")
+		}
+	})
 	// listener literal
 	var lit *ssa.Function
 	var goLit *ssa.Go
@@ -334,6 +376,104 @@ func c18Filter(c *Check, P string, hn *ssa.Function, isKeyGet func(ssa.Value, fu
 }
 
 func c18Finish(c *Check, P string, listen, lit *ssa.Function, goLit *ssa.Go) {
+	// a notification for this request that cannot be decoded is told to the caller (as an error reply), not passed over in
+	// silence: from the decode-error edge the loop goes on only past a reply
+	{
+		isReplyCh := func(v ssa.Value) bool {
+			return AllOrigins(v, func(o ssa.Value) bool { _, ok := o.(*ssa.MakeChan); return ok && o.Parent() == listen })
+		}
+		sendsReply := func(f *ssa.Function) bool {
+			if f == nil {
+				return false
+			}
+			found := false
+			for _, g := range WithAnon(f) {
+				AllInstrs(g, func(in ssa.Instruction) {
+					switch x := in.(type) {
+					case *ssa.Send:
+						if isReplyCh(x.Chan) {
+							found = true
+						}
+					case *ssa.Select:
+						for _, st := range x.States {
+							if st.Dir == types.SendOnly && isReplyCh(st.Chan) {
+								found = true
+							}
+						}
+					}
+				})
+			}
+			return found
+		}
+		var emits []ssa.Instruction
+		var decodes []ssa.CallInstruction
+		for _, cl := range CallsIn(lit) {
+			if cl.Parent() != lit {
+				continue
+			}
+			if f := FuncOfValue(firstOrigin(cl.Common().Value)); f != nil && f != lit && sendsReply(f) {
+				emits = append(emits, cl)
+			}
+			if cal := CalleeFn(cl.Common()); cal != nil && cal.Pkg == lit.Pkg && cal.Signature.Results().Len() == 3 && IsErrorType(cal.Signature.Results().At(2).Type()) {
+				decodes = append(decodes, cl)
+			}
+		}
+		if len(decodes) > 0 && len(emits) > 0 {
+			_, fail := NilEdges(lit, func(v ssa.Value) bool {
+				e, ok := v.(*ssa.Extract)
+				return ok && e.Index == 2 && ResultOfAny(decodes, 2)(v)
+			})
+			var loopSel []ssa.Instruction
+			for _, si := range Selects(lit) {
+				if si.Sel.Parent() == lit && si.Blocking {
+					loopSel = append(loopSel, si.Sel)
+				}
+			}
+			for _, e := range fail {
+				re := ReachEdge(e, NewCut().AddInstrs(emits...))
+				okT := true
+				for _, sl := range loopSel {
+					if re[sl] {
+						okT = false
+					}
+				}
+				c.Report(okT, P+".O1", "UNDECODABLE-REPLY-REPORTED", lit, e.From.Instrs[len(e.From.Instrs)-1].Pos(), "decode-error edge", "when a notification of this request cannot be decoded the caller gets an error reply before the listener waits for the next notification")
+			}
+			c.Floor(P+".O1", "listener: test of the notification decoder's error", len(fail), 1)
+		}
+	}
+	// the listener stops listening only because its context ended or the notification channel was closed: no reply, readable
+	// or not, makes it leave (further replies — a redelivery after a Nack — may still come)
+	{
+		var allowed []Edge
+		for _, si := range Selects(lit) {
+			if si.Sel.Parent() != lit {
+				continue
+			}
+			for _, cs := range si.Cases {
+				if cs.Send || cs.Edge == nil {
+					continue
+				}
+				if ck := ClassifyChan(cs.Chan); ck.Kind == "ctx.Done" {
+					allowed = append(allowed, *cs.Edge)
+				}
+			}
+			// recvOk: extract #(1 + number of receive cases seen so far … ) — located through its use as a branch condition
+			for _, ref := range *si.Sel.Referrers() {
+				e, isE := ref.(*ssa.Extract)
+				if !isE || e.Type().String() != "bool" || e.Index != 1 {
+					continue
+				}
+				_, notOK := BoolEdges(lit, func(v ssa.Value) bool { return v == ssa.Value(e) })
+				allowed = append(allowed, notOK...)
+			}
+		}
+		if c.Floor(P+".O4", "listener: ctx.Done case and closed-channel edge", len(allowed), 2) {
+			for i, r := range Returns(lit) {
+				c.Report(GuardedBy(lit, r, allowed), P+".O4", "LISTENER-LEAVES-ONLY-WHEN-IT-IS-OVER", lit, r.Pos(), fmt.Sprintf("listener return#%d", i), "the listener goroutine returns only behind the ctx.Done() case or the edge on which the notification channel was found closed (not after some reply — more may follow)")
+			}
+		}
+	}
 	// the reply channel's buffer belongs to the caller: the listener only sends into it and closes it
 	isReplyCh := func(v ssa.Value) bool {
 		return AllOrigins(v, func(o ssa.Value) bool { _, ok := o.(*ssa.MakeChan); return ok && o.Parent() == listen })
